@@ -190,7 +190,9 @@ func doCall(vd *vedirect.Vedirect, c Call, res *RunResult) (out string) {
 	case "cmd":
 		v, err := vd.VeCommand(vedirect.VeCommand(c.Cmd), c.Addr)
 		if err != nil {
-			return "err:" + errKind(err) + nonZero(len(v) != 0, HEX(v))
+			// the low-level command hands back what it parsed so far together with e.g. a check-byte error;
+			// no property speaks about that value (C05 is about the accessors), so it is not observed
+			return "err:" + errKind(err)
 		}
 		res.keep(v)
 		return "ok:" + HEX(v)
